@@ -285,9 +285,10 @@ type vfC11Sys struct {
 	ended  map[string]string    // how the peer's last reservation ended
 	closed bool
 	out    *vfh.Result
-	walk   int
-	step   int
-	prefix []vfh.Op
+	walk     int
+	step     int
+	diverged int // step of the first L2 divergence of this walk, -1: none
+	prefix   []vfh.Op
 	pnames []string
 }
 
@@ -308,7 +309,7 @@ func vfC11NewSys(cfg *vfC11Cfg, out *vfh.Result) (*vfC11Sys, error) {
 		return nil, err
 	}
 	w.cm = cm
-	s := &vfC11Sys{cfg: cfg, w: w, cm: cm, atts: map[int]*vfC11Att{}, res: map[string]*vfC11Res{}, ended: map[string]string{}, out: out}
+	s := &vfC11Sys{cfg: cfg, w: w, cm: cm, atts: map[int]*vfC11Att{}, res: map[string]*vfC11Res{}, ended: map[string]string{}, out: out, diverged: -1}
 	pn := map[string]bool{}
 	for l, pa := range cfg.Links {
 		if len(pa) != 2 || g.peers[pa[0]] == "" || g.addrs[pa[1]] == nil {
@@ -487,6 +488,15 @@ func vfC11NewAtt(slot int, src *vfC11Conn, dst string) *vfC11Att {
 // mismatch reporting
 
 func (s *vfC11Sys) mismatch(class, what string, exp, got any) {
+	if strings.HasPrefix(class, "L2:") {
+		// Once the relay has left the model, later model-derived expectations mean nothing: the divergence is
+		// reported where it is first seen (all fields of that step), the rest of the walk is still EXECUTED
+		// (its requests are legitimate inputs) and judged by the L1 monitors alone, which never read the model.
+		if s.diverged >= 0 && s.step > s.diverged {
+			return
+		}
+		s.diverged = s.step
+	}
 	pre := make([]vfh.Op, len(s.prefix))
 	copy(pre, s.prefix)
 	s.out.AddMismatch(vfh.Mismatch{Class: class, What: what, Walk: s.walk, Step: s.step, Expected: exp, Got: got,
@@ -584,13 +594,16 @@ func (s *vfC11Sys) doReserve(op vfh.Op) {
 	}
 	cl := pipe.ends[1]
 	cl.Write(vfC11Delimited(&pbv2.HopMessage{Type: pbv2.HopMessage_RESERVE.Enum()}))
+	re := pipe.ends[0]
 	if ab {
+		// the client goes away after the relay has read the request: from the ACL callback on, whatever the
+		// relay writes on this stream is lost (the write fails)
 		s.w.mu.Lock()
-		s.w.aclGate = func() { cl.Reset() }
+		s.w.aclGate = func() { pipe.mu.Lock(); re.failWrite = true; pipe.mu.Unlock() }
 		s.w.mu.Unlock()
 	}
 	now := s.now()
-	go s.hopHandler()(pipe.ends[0])
+	go s.hopHandler()(re)
 	synctest.Wait()
 	s.w.mu.Lock()
 	s.w.aclGate = nil
@@ -603,22 +616,36 @@ func (s *vfC11Sys) doReserve(op vfh.Op) {
 	}
 	want := op.S("status")
 	held := s.res[c.pname]
-	granted := st == "OK"
+	// what the relay decided: the answer the client received or, when the client had left, the answer the
+	// relay tried to write (never the model's expectation)
+	decided, answer := st, att.hopMsg
 	if ab {
-		// nothing is observable by the client; the ledger follows the model for this corner
-		granted = op.S("why") == "ok"
-	} else if st != want {
+		pipe.mu.Lock()
+		lost := append([]byte(nil), re.lost...)
+		pipe.mu.Unlock()
+		var m pbv2.HopMessage
+		decided, answer = "none", nil
+		if _, ok := vfC11Take(lost, &m); ok && m.GetType() == pbv2.HopMessage_STATUS {
+			decided, answer = m.GetStatus().String(), &m
+		}
+	}
+	granted := decided == "OK"
+	if st != want {
 		if (st == "OK") == (want == "OK") {
-			s.mismatch("L2:reserve-status", "reservation refused with another status than the model's", want, st)
+			s.mismatch("L2:reserve-status", "reservation answered with another status than the model's", want, st)
 		} else if want == "OK" {
 			s.mismatch("L2:reserve-refused", "the model grants this reservation, the relay refuses it (the statement only bounds grants)", want, st)
+		} else {
+			s.mismatch("L2:reserve-granted", "the relay grants a reservation the model refuses (judged by the L1 clauses)", want, st)
 		}
-		// granted although the model refuses: the L1 clauses below decide
+	}
+	if ab {
+		if wantOK := op.S("why") == "ok"; wantOK != granted {
+			s.mismatch("L2:reserve-unseen-decision", "the decision on a request whose client left differs from the model's", op.S("why"), decided)
+		}
 	}
 	if !granted {
-		why := op.S("why")
-		refusedUnseen := ab && (why == "total" || why == "noip" || why == "ip" || why == "asn") // the client left before the answer
-		if (st == "RESERVATION_REFUSED" || refusedUnseen) && held != nil && !held.expiry.Before(now) {
+		if decided == "RESERVATION_REFUSED" && held != nil && !held.expiry.Before(now) {
 			held.refused = true
 		}
 		return
@@ -631,9 +658,7 @@ func (s *vfC11Sys) doReserve(op vfh.Op) {
 		s.mismatch("reservation-granted-against-acl", "RESERVE the ACL refuses was granted", "refused", st)
 	}
 	expiry := now.Add(time.Duration(s.cfg.TTL) * vfC11Unit)
-	if !ab {
-		s.checkVoucher(att.hopMsg, c, expiry)
-	}
+	s.checkVoucher(answer, c, expiry)
 	var asn uint32
 	if ip, err := manet.ToIP(c.addr); err == nil && ip.To4() == nil {
 		asn = asnutil.AsnForIPv6(ip)
@@ -900,6 +925,8 @@ func (s *vfC11Sys) doStop(op vfh.Op) {
 		return
 	}
 	he := a.stop.ends[1]
+	a.pollHop()
+	waiting := a.phase == "hs" && a.hopMsg == nil // the source has no answer yet
 	switch op.S("kind") {
 	case "ok":
 		he.Write(vfC11Delimited(&pbv2.StopMessage{Type: pbv2.StopMessage_STATUS.Enum(), Status: pbv2.Status_OK.Enum()}))
@@ -915,7 +942,7 @@ func (s *vfC11Sys) doStop(op vfh.Op) {
 	s.noteOpen(a)
 	if st != op.S("status") {
 		cls := "L2:stop-status"
-		if st == "OK" && op.S("kind") != "ok" {
+		if waiting && st == "OK" && op.S("kind") != "ok" {
 			cls = "connect-ok-without-destination-consent"
 		}
 		s.mismatch(cls, "status after the destination's answer "+op.S("kind"), op.S("status"), st)
